@@ -319,7 +319,8 @@ def build():
                                                  init="random")],
              pos_data, lambda r: pos_data(r, n=25, d=6), methods=["predict"], rowwise=["predict"], det_rs=False,
              alts={"init": [lambda: "random", lambda: "nndsvd"], "solver": [lambda: "cd"],
-                   "beta_loss": [lambda: "frobenius"]}))
+                   "beta_loss": [lambda: "frobenius"], "n_components": [lambda: None, lambda: 4],
+                   "random_state": [lambda: None, lambda: 0]}))
     add(Spec("PredictableTSNE",
              [lambda: mm.PredictableTSNE(transformer=TSNE(n_components=2, perplexity=5, max_iter=250, random_state=0),
                                          estimator=MLPRegressor(hidden_layer_sizes=(5,), max_iter=40,
@@ -350,7 +351,12 @@ def build():
               lambda: mm.TransferTransformer(StandardScaler().fit(numpy.arange(12.0).reshape(4, 3)),
                                              copy_estimator=False),
               lambda: mm.TransferTransformer(LogisticRegression().fit(numpy.eye(3), [0, 1, 0]), method="predict_proba",
-                                             trainable=True)],
+                                             trainable=True),
+              lambda: mm.TransferTransformer(__import__("sklearn.decomposition", fromlist=["PCA"]).PCA(
+                  n_components=2).fit(numpy.arange(12.0).reshape(4, 3) ** 2), trainable=True),
+              lambda: mm.TransferTransformer(__import__("sklearn.neighbors", fromlist=["x"]).KNeighborsRegressor(
+                  n_neighbors=2, algorithm="brute").fit(numpy.eye(3), [1.0, 2.0, 3.0]), trainable=True,
+                  copy_estimator=False)],
              reg_data, lambda r: reg_data(r, n=22), methods=["transform"], rowwise=["transform"],
              fit=lambda est, D: est.fit(D["X"], (D["y"] > numpy.median(D["y"])).astype(int)
                                         if type(est.estimator).__name__ == "LogisticRegression" else D["y"]),
